@@ -122,6 +122,13 @@ def check_op(name: str, case: dict) -> Optional[Tuple[str, str]]:
             return (f"C20:nonfinite:{name}:output", f"{name}: output contains non-finite values")
     s = _scalar(out, W)
     names = list(leaves)
+    # a derivative is the derivative of a FUNCTION of the inputs: evaluating the operation again with unchanged inputs must
+    # give the same value (an operation that writes into a tensor it was handed changes its own later results, and every
+    # finite difference — and every optimisation step — then compares different functions)
+    with torch.no_grad():
+        again = [float(_scalar(f(), W)) for _ in range(2)]
+    if again[0] != again[1] and not (again[0] != again[0] and again[1] != again[1]):
+        return (f"C20:irreproducible:{name}", f"{name}: two evaluations with unchanged inputs give {again[0]:.10g} and {again[1]:.10g}")
     if not s.requires_grad:
         return (f"C20:no-grad:{name}:{names[0]}", f"{name}: output does not require grad (detached from all inputs)")
     grads = torch.autograd.grad(s, [leaves[n] for n in names], allow_unused=True)
@@ -524,6 +531,17 @@ def _grid_sample(case):
     coords = leaf(pts.reshape((1,) + (1,) * (D - 1) + (-1, D)))
     pad = case.get("padding", "border")
     return {"data": data, "coords": coords}, lambda: U.grid_sample(data, coords, mode="linear", padding=pad, align_corners=ac)
+
+
+@op("core.grid_sample[padding=scalar]")
+def _grid_sample_const(case):
+    # constant padding is emulated by subtract / sample / add; the image is an intermediate (non-leaf) tensor of the same
+    # dtype as the coordinates, evaluated repeatedly by the finite differences: it must not be written to
+    gen, shape, ac, data, pts = _sampling_case(case)
+    D = len(shape)
+    coords = leaf(pts.reshape((1,) + (1,) * (D - 1) + (-1, D)))
+    img = data.detach().clone()
+    return {"coords": coords}, lambda: U.grid_sample(img, coords, mode="linear", padding=0.25, align_corners=ac)
 
 
 @op("core.sample_image")
